@@ -538,6 +538,77 @@ def run_hostile_component(seed, tier, name):
 CUSTOM["hostile"] = run_hostile_component
 
 
+FIXGEN = os.path.join(VERIF, "fixturegen")
+FIXBIN = os.path.join(FIXGEN, "target", "release", "fixturegen")
+FIXREF = os.path.join(VERIF, "fixtures", "reference_b4846a6.txt")
+FIXVER = os.path.join(VERIF, "fixtures", "reference_b4846a6.verdicts.txt")
+
+
+def run_fixture_component(seed, tier, name):
+    """fixturegen (public API only, real Merlin) rebuilt against /repo: record again and compare bit for bit with the
+    reference revision's recording; verify the recorded proofs and wrong statements with this build"""
+    t0 = time.time()
+    res = CompResult()
+    res.outdir = os.path.join(WORK, name)
+    os.makedirs(res.outdir, exist_ok=True)
+    env = dict(os.environ); env["CARGO_NET_OFFLINE"] = "true"
+    env.pop("RUSTFLAGS", None)
+    rc, out = sh("cargo build --release --offline 2>&1 | tail -30", cwd=FIXGEN, timeout=3000, env=env)
+    rc2, _ = sh("cargo build --release --offline", cwd=FIXGEN, timeout=3000, env=env)
+    res.fixture = {"record": {}, "ref": {}, "verdicts": {}, "ref_verdicts": {}, "build_error": None}
+    if rc2 != 0:
+        res.fixture["build_error"] = out[-1500:]
+        res.disagreements.append(("fixturegen", 0, "fixturegen (public API only) no longer builds against /repo: " + out[-600:]))
+        return res
+    rc, rec = sh([FIXBIN, "record"], timeout=1200, env=env)
+    open(os.path.join(res.outdir, "record.txt"), "w").write(rec)
+    rc_v, ver = sh([FIXBIN, "verify", FIXREF], timeout=1200, env=env)
+    open(os.path.join(res.outdir, "verify.txt"), "w").write(ver)
+    def key(l):
+        t = l.split()
+        if not t:
+            return None
+        if t[0] in ("GENS",):
+            return " ".join(t[:5])
+        if t[0] in ("GEN0",):
+            return " ".join(t[:4])
+        if t[0] in ("PED",):
+            return " ".join(t[:2])
+        if t[0] in ("PROOF", "VERIFY"):
+            return " ".join(t[:3])
+        return None
+    def table(txt):
+        d = {}
+        for l in txt.splitlines():
+            k = key(l)
+            if k:
+                d[k] = l.split()[len(k.split()):]
+        return d
+    ref, cur = table(open(FIXREF).read()), table(rec)
+    refv, curv = table(open(FIXVER).read()), table(ver)
+    res.fixture.update({"record": cur, "ref": ref, "verdicts": curv, "ref_verdicts": refv})
+    if rc != 0 or rc_v != 0:
+        res.disagreements.append(("fixturegen", 0, "fixturegen exited %s/%s: %s" % (rc, rc_v, (rec + ver)[-300:])))
+    for k in ref:
+        if k not in cur:
+            res.disagreements.append((k, 40, "recorded by the reference revision, not produced by this build"))
+        elif cur[k] != ref[k]:
+            what = {"GENS": "generator digest", "GEN0": "first generator", "PED": "Pedersen bases", "PROOF": "commitments / proof bytes re-proved with the recorded seed"}[k.split()[0]]
+            res.disagreements.append((k, 40, "%s differs from the reference revision's recording" % what))
+    for k in refv:
+        if k not in curv:
+            res.disagreements.append((k, 41, "recorded proof not verified by this build (no output)"))
+        elif curv[k] != refv[k]:
+            res.disagreements.append((k, 41, "verdicts on the recorded proof differ: reference %s, this build %s" % (" ".join(refv[k]), " ".join(curv[k]))))
+    res.cases = len(ref) + len(refv)
+    res.summary = {"fixture": {"curve": "all", "line": "fixture lines compared: %d recorded values, %d verdict rows" % (len(ref), len(refv))}}
+    res.wall = time.time() - t0
+    return res
+
+
+CUSTOM["fixture"] = run_fixture_component
+
+
 # ---------------------------------------------------------------- evidence / verdict
 def write_evidence(pid, tier, seed, level, coverage, assumptions, wall, violations):
     os.makedirs(EVID, exist_ok=True)
